@@ -46,7 +46,7 @@ func init() {
 func (c *c18) Cases(tier string, seed int64) []core.Case {
 	var cs []core.Case
 	r := core.Rng("C18", tier, seed)
-	nsets := map[string]int{"quick": 1, "thorough": 5}[tier]
+	nsets := map[string]int{"quick": 1, "thorough": 12}[tier]
 	for s := 0; s < nsets; s++ {
 		for _, f := range []string{"par2", "par1"} {
 			for _, st := range []string{"intact", "one-damaged", "several-damaged", "mangled", "volume-missing"} {
